@@ -236,6 +236,12 @@ func runPubScenario(sc J) []stepResult {
 				}
 				obs["handled"] = handled
 				obs["err"] = errClassPub(err)
+				// afterwards a middleware edits the header values it was given in place; that is its own response
+				for _, vs := range cw.header {
+					for i := range vs {
+						vs[i] += "; edited-by-middleware"
+					}
+				}
 			}()
 			if !waitDone(done, 10*time.Second) {
 				obs["hang"] = true
@@ -262,6 +268,9 @@ func runPubScenario(sc J) []stepResult {
 		}
 		obs["fallible"] = world.nFall
 		world.mu.Unlock()
+		if kt := world.keptTrouble(); len(kt) > 0 {
+			obs["keptTrouble"] = kt
+		}
 		out = append(out, stepResult{In: min, Obs: obs})
 	}
 	return out
